@@ -872,5 +872,198 @@ def rule_default(ctx):
     return res.finish(20)
 
 
+VALUE_CHANGING = {"filter", "max", "min", "clamp", "abs", "round", "floor", "ceil", "trunc", "rem", "rem_euclid", "pow", "powi", "powf", "sqrt", "recip", "signum",
+                  "saturating_sub", "saturating_add", "wrapping_sub", "wrapping_add", "checked_sub", "checked_add", "take", "skip", "truncate", "retain", "dedup", "sort", "and_then",
+                  "next_power_of_two", "exp", "ln", "neg", "not"}
+
+
+def builder_methods(F, impls):
+    """inherent methods of the ParamGuard builders that take self by value: (builder, fn)"""
+    out = []
+    for fn in F.all_fns():
+        d = fn["d"]
+        adt = (d.get("self_adt") or "").split("::")[-1]
+        if adt in impls and not d.get("trait") and fn["params"] and fn["params"][0].get("name") == "self" and "&" not in (fn["inputs"][0] if fn.get("inputs") else ""):
+            out.append((adt, fn))
+    return out
+
+
+def _assigned_fields(fn):
+    """[(field path below self.0, value node)] for every `self.0.<..> = value` in a setter"""
+    out = []
+    for x in walk(fn["body"]):
+        if x.get("k") == "Assign":
+            l = strip(x["l"])
+            names = []
+            while l.get("k") == "Field":
+                names.insert(0, l["name"])
+                l = strip(l["e"])
+            if l.get("k") == "Path" and l.get("name") == "self" and names and names[0] == "0":
+                out.append((".".join(n_ for n_ in names if n_ != "0"), x["r"], x))
+    return out
+
+
+def rule_setter(ctx):
+    """What the check judges is what the caller set: a builder method stores the value it was given (possibly wrapped:
+    Some(v), a tuple / variant of its arguments, v.to_string(), an element-wise conversion) - it does not clamp, filter,
+    round or otherwise replace it, because the range check would then accept or reject a value the caller never passed."""
+    res = RuleResult("R-C04-setter", "every builder method stores its arguments unchanged (no clamp / filter / rounding / arithmetic between the argument and the stored field)")
+    F = ctx.facts()
+    impls = guard_impls(F)
+    n = 0
+    for adt, fn in builder_methods(F, impls):
+        c = fn["crate"]
+        params = set(b["local"] for p_ in fn["params"][1:] for b in pat_bindings(p_))
+        for fld, val, node in _assigned_fields(fn):
+            n += 1
+            key = "%s : %s" % (fn_key(fn), fld)
+            res.instance(key)
+            bad = None
+            for y in walk(val):
+                if y.get("k") == "MethodCall" and y["name"] in VALUE_CHANGING and any(z.get("k") == "Path" and z.get("local") in params for z in walk(y["recv"])):
+                    bad = "`.%s(..)`" % y["name"]
+                    break
+                if y.get("k") == "Binary" and y["op"] in ("+", "-", "*", "/", "%") and any(z.get("k") == "Path" and z.get("local") in params for z in walk(y)):
+                    bad = "arithmetic `%s`" % y["op"]
+                    break
+                if y.get("k") in ("If", "Match") and y.get("src", "Normal") == "Normal" and any(z.get("k") == "Path" and z.get("local") in params for z in walk(y.get("c") or y.get("scrut"))):
+                    bad = "a branch on the argument"
+                    break
+            if bad:
+                res.violate("%s : setter-changes-value" % key, "the builder method `%s` passes its argument through %s before storing it in `%s`: the value that is checked and used is not the one the caller set" % (fn["d"]["name"], bad, fld), fn_loc(fn, node["ln"]))
+            else:
+                res.ok()
+    if n < 60:
+        res.missing_anchor("builder setters (found %d assignments, expected about 100)" % n)
+    return res.finish(60)
+
+
+def rule_carry(ctx):
+    """A builder method that rebuilds the parameter set (because a type parameter changes: with_rng) carries every field
+    over: a field that is not copied from `self` silently falls back to a default, and an invalid value set before the
+    call is no longer there to be rejected."""
+    res = RuleResult("R-C04-carry", "builder methods that rebuild the parameter struct copy every field from self (or set it from their own arguments)")
+    F = ctx.facts()
+    impls = guard_impls(F)
+    adts = {}
+    for c in F.crates.values():
+        for a in c.adts:
+            adts[a["path"].split("::")[-1]] = a
+            adts[(c.name, a["path"])] = a
+    methods = builder_methods(F, impls)
+    by_name = {}
+    ctor = {}
+    for fn in F.all_fns():
+        d = fn["d"]
+        adt = (d.get("self_adt") or "").split("::")[-1]
+        if adt in impls and not d.get("trait"):
+            by_name.setdefault((adt, d["name"]), fn)
+    n = 0
+    for adt, fn in methods:
+        c = fn["crate"]
+        body = strip(fn["body"])
+        tail = strip(body["e"]) if body.get("k") == "Block" and body.get("e") is not None else body
+        if tail.get("k") == "Path" and tail.get("name") == "self":
+            continue
+        if (fn["params"][0].get("mode") or "").endswith("Mut)"):
+            continue
+        out_ty = fn.get("output") or ""
+        if adt not in out_ty:
+            continue
+        n += 1
+        key = fn_key(fn)
+        params = set(b["local"] for p_ in fn["params"][1:] for b in pat_bindings(p_))
+
+        def provenance(e):
+            """('self', field) / ('arg', None) / ('other', text)"""
+            e0 = peel_refs(e)
+            names = []
+            t = e0
+            while t.get("k") == "Field":
+                names.insert(0, t["name"])
+                t = peel_refs(t["e"])
+            if t.get("k") == "Path" and t.get("name") == "self" and names and names[0] == "0":
+                return ("self", ".".join(x for x in names if x != "0"))
+            if any(z.get("k") == "Path" and z.get("local") in params for z in walk(e0)):
+                return ("arg", None)
+            return ("other", Render(c).e(e0)[:40])
+        carried = {}     # field -> provenance
+        lits = [x for x in walk(tail) if x.get("k") == "Struct" and x.get("fields")]
+        chain = []
+        t = tail
+        while t.get("k") == "MethodCall":
+            chain.insert(0, t)
+            t = strip(t["recv"])
+        if lits and not chain:
+            lit = lits[0]
+            for f in lit["fields"]:
+                carried[f["name"]] = provenance(f["e"])
+            if lit.get("base") is not None:
+                carried["<base>"] = provenance(lit["base"])
+            valid = adts.get((c.dfn(lit.get("def")) or {}).get("path", "").split("::")[-1])
+        elif t.get("k") == "Call":
+            # constructor + setters
+            f0 = strip(t["f"])
+            d0 = c.dfn(f0.get("def")) if f0.get("k") == "Path" else None
+            g = by_name.get((adt, d0["name"])) if d0 else None
+            if g is None:
+                res.instance(key)
+                res.undecided("%s : rebuild-form" % key, "the constructor this method rebuilds the parameters with was not found", fn_loc(fn))
+                continue
+            glits = [x for x in walk(g["body"]) if x.get("k") == "Struct" and x.get("fields")]
+            if not glits:
+                res.instance(key)
+                res.undecided("%s : rebuild-form" % key, "constructor %s does not build the parameter struct with a literal" % g["d"]["name"], fn_loc(fn))
+                continue
+            gparams = [b["local"] for p_ in g["params"] for b in pat_bindings(p_)]
+            valid = adts.get((g["crate"].dfn(glits[0].get("def")) or {}).get("path", "").split("::")[-1])
+            for f in glits[0]["fields"]:
+                v = peel_refs(f["e"])
+                if v.get("k") == "Path" and v.get("local") in gparams and gparams.index(v["local"]) < len(t["args"]):
+                    carried[f["name"]] = provenance(t["args"][gparams.index(v["local"])])
+                else:
+                    carried[f["name"]] = ("default", Render(g["crate"]).e(v)[:30])
+            for call in chain:
+                sg = by_name.get((adt, call["name"]))
+                if sg is None:
+                    continue
+                sparams = [b["local"] for p_ in sg["params"][1:] for b in pat_bindings(p_)]
+                for fld, val, _ in _assigned_fields(sg):
+                    v = peel_refs(val)
+                    src = None
+                    for z in walk(v):
+                        if z.get("k") == "Path" and z.get("local") in sparams and sparams.index(z["local"]) < len(call["args"]):
+                            src = call["args"][sparams.index(z["local"])]
+                    carried[fld] = provenance(src) if src is not None else ("other", "constant")
+        else:
+            res.instance(key)
+            res.undecided("%s : rebuild-form" % key, "the way this method rebuilds the parameter set was not understood", fn_loc(fn))
+            continue
+        if valid is None:
+            res.instance(key)
+            res.undecided("%s : valid-struct" % key, "the checked parameter struct was not found", fn_loc(fn))
+            continue
+        for v_ in valid["variants"]:
+            for f in v_["fields"]:
+                fname = f["name"]
+                if "PhantomData" in (f.get("ty") or ""):
+                    continue
+                res.instance("%s : field %s" % (key, fname))
+                pv = carried.get(fname)
+                if pv is None and "<base>" in carried and carried["<base>"][0] == "self":
+                    res.ok()
+                elif pv is None or pv[0] == "default":
+                    res.violate("%s : field-reset:%s" % (key, fname), "`%s` rebuilds the parameter set without carrying `%s` over from self: the field falls back to %s, so a value set before the call (valid or not) is silently lost" % (fn["d"]["name"], fname, pv[1] if pv else "a default"), fn_loc(fn))
+                elif pv[0] == "self" and pv[1] != fname:
+                    res.violate("%s : field-from-other-field:%s" % (key, fname), "`%s` is rebuilt from `self.%s`" % (fname, pv[1]), fn_loc(fn))
+                elif pv[0] == "other":
+                    res.violate("%s : field-reset:%s" % (key, fname), "`%s` rebuilds the parameter set with `%s` = %s instead of the value held by self" % (fn["d"]["name"], fname, pv[1]), fn_loc(fn))
+                else:
+                    res.ok()
+    if n < 2:
+        res.missing_anchor("rebuilding builder methods (with_rng of GmmParams and RandomProjectionParams; found %d)" % n)
+    return res.finish(2)
+
+
 def rules(tier):
-    return [rule_range, rule_same, rule_dom, rule_forge, rule_default]
+    return [rule_range, rule_same, rule_dom, rule_forge, rule_default, rule_setter, rule_carry]
